@@ -149,3 +149,19 @@ def discard_sites(body):
             elif ty.startswith('std::result::Result<') or ty.startswith('std::option::Option<'):
                 out.append((s, 'unused ' + ty.split('<')[0].split('::')[-1]))
     return out
+
+
+def ok_return_blocks(body):
+    """blocks where a Result::Ok / Option::Some value that reaches the return place is built"""
+    out = []
+    for (i, j, s) in body.aggregates(r'^std::result::Result$', 'Ok'):
+        d = s['d']
+        if not isinstance(d, int):
+            continue
+        if d == 0:
+            out.append(i)
+            continue
+        t = Taint(body, local_src=[d], through_calls=False)
+        if t.local_tainted(0):
+            out.append(i)
+    return out
